@@ -231,7 +231,7 @@ static void dump_api(TasmanianSparseGrid &g) {
     al("loaded", " " + std::to_string(g.getNumLoaded())); al("needed", " " + std::to_string(g.getNumNeeded())); al("npoints", " " + std::to_string(g.getNumPoints()));
     if (!g.empty() && g.getNumPoints() > 0) { const int *p = g.getPointsIndexes(); al("pidx", fm_ints(std::vector<int>(p, p + (size_t) d * g.getNumPoints()))); } else if (!g.empty()) al("pidx", "");
     if (g.isLocalPolynomial() && g.getNumNeeded() > 0) { const int *p = g.getNeededIndexes(); al("nidx", fm_ints(std::vector<int>(p, p + (size_t) d * g.getNumNeeded()))); }
-    { const double *v = g.getLoadedValues(); al("values", (v && outs > 0) ? fm_dbls(v, (size_t) outs * g.getNumLoaded()) : std::string("")); }
+    { const double *v = (outs > 0 && g.getNumLoaded() > 0) ? g.getLoadedValues() : nullptr; al("values", v ? fm_dbls(v, (size_t) outs * g.getNumLoaded()) : std::string("")); }   // (the getter indexes an empty vector otherwise)
     { const double *c = (g.empty() || outs == 0 || g.getNumLoaded() == 0) ? nullptr : g.getHierarchicalCoefficients();
       al("coef", c ? fm_dbls(c, (size_t) outs * g.getNumLoaded() * (g.isFourier() ? 2 : 1)) : std::string("")); }
     if (g.isSetDomainTransfrom()) { std::vector<double> a, b; g.getDomainTransform(a, b); al("ta", fm_dbls(a)); al("tb", fm_dbls(b)); } else al("transform", " none");
@@ -264,7 +264,7 @@ static void digest(Slot &s, const std::vector<double> &x, bool verbose) {
     c.push_back({"loaded", hcat([&]() { if (!g.empty() && g.getNumLoaded() > 0) dv(g.getLoadedPoints()); })});   // getLoadedPoints() overruns its buffer when outputs == 0
     c.push_back({"needed", hcat([&]() { if (!g.empty()) dv(g.getNeededPoints()); })});
     c.push_back({"pidx", hcat([&]() { if (!g.empty() && g.getNumPoints() > 0) { const int *p = g.getPointsIndexes(); dvi(std::vector<int>(p, p + (size_t) d * g.getNumPoints())); } })});
-    c.push_back({"values", hcat([&]() { const double *v = g.getLoadedValues(); if (v && outs > 0) dv(std::vector<double>(v, v + (size_t) outs * g.getNumLoaded())); })});
+    c.push_back({"values", hcat([&]() { if (canev) { const double *v = g.getLoadedValues(); dv(std::vector<double>(v, v + (size_t) outs * g.getNumLoaded())); } })});
     c.push_back({"coef", hcat([&]() { if (canev) { const double *p = g.getHierarchicalCoefficients(); dv(std::vector<double>(p, p + (size_t) outs * g.getNumLoaded() * (g.isFourier() ? 2 : 1))); } })});
     c.push_back({"qw", hcat([&]() { if (haspts) dv(g.getQuadratureWeights()); })});
     c.push_back({"iw", hcat([&]() { if (haspts) for (size_t i = 0; i < nx; i++) dv(g.getInterpolationWeights(std::vector<double>(x.begin() + i * d, x.begin() + (i + 1) * d))); })});
